@@ -22,6 +22,10 @@ const (
 	KB = 1024
 	MB = 1024 * KB
 
+	// MinBufSize is the smallest send and receive buffer size the
+	// protocol allows (Part 6, 7.1.2.3 and 7.1.2.4).
+	MinBufSize = 8192
+
 	DefaultReceiveBufSize = 0xffff
 	DefaultSendBufSize    = 0xffff
 	DefaultMaxChunkCount  = 512
@@ -258,6 +262,9 @@ func (c *Conn) Handshake(ctx context.Context, endpoint string) error {
 		}
 		if ack.Version != 0 {
 			return errors.Errorf("uacp: invalid version %d", ack.Version)
+		}
+		if ack.ReceiveBufSize < MinBufSize || ack.SendBufSize < MinBufSize {
+			return errors.Errorf("uacp: invalid buffer sizes in ACK: receive=%d send=%d, minimum is %d", ack.ReceiveBufSize, ack.SendBufSize, MinBufSize)
 		}
 		if ack.MaxChunkCount == 0 {
 			ack.MaxChunkCount = DefaultMaxChunkCount
